@@ -1,22 +1,24 @@
 package vsched
 
+import "time"
+
 // Stateless depth-first exploration of the choice tree of one scenario
 // (DESIGN.md E1): replay a prefix, take option 0 afterwards, then branch on
 // every later point whose accumulated deviation cost stays within the bound.
 
 type Stats struct {
-	Executions  int64 // complete executions run
-	Nodes       int64 // tree nodes visited = distinct (choice prefix) decision points reached
-	Steps       int64 // scheduler steps executed
-	MaxPoints   int   // max choice points in one execution
-	Bound       int   // completed deviation bound
-	Capped      bool  // an execution/node cap was hit: exploration of this scenario is incomplete
-	Diverged    int64
-	Retried     int64 // replays repeated because the prefix did not line up (kernel-chosen ports)
-	Resynced    int64 // replays accepted without the signature check
-	Horizon     int64
-	ByOutcome   [5]int64
-	CostHist    [8]int64 // executions by deviation cost
+	Executions int64 // complete executions run
+	Nodes      int64 // tree nodes visited = distinct (choice prefix) decision points reached
+	Steps      int64 // scheduler steps executed
+	MaxPoints  int   // max choice points in one execution
+	Bound      int   // completed deviation bound
+	Capped     bool  // an execution/node cap was hit: exploration of this scenario is incomplete
+	Diverged   int64
+	Retried    int64 // replays repeated because the prefix did not line up (kernel-chosen ports)
+	Resynced   int64 // replays accepted without the signature check
+	Horizon    int64
+	ByOutcome  [5]int64
+	CostHist   [8]int64 // executions by deviation cost
 }
 
 func (a *Stats) Add(b Stats) {
@@ -55,6 +57,11 @@ type frame struct {
 	cost   int
 }
 
+// ExploreDeadline, when set, is the wall-clock instant after which explorations stop starting new executions. The worker
+// sets it per scenario: a change to the code under test that multiplies the schedules of a scenario (more threads, more
+// blocking points) costs coverage of that scenario, not the whole check.
+var ExploreDeadline time.Time
+
 // Explore runs the exploration; it returns false if Check stopped it.
 func (e *Explorer) Explore() bool {
 	e.Stats.Bound = e.Bound
@@ -63,6 +70,12 @@ func (e *Explorer) Explore() bool {
 		f := stack[len(stack)-1]
 		stack = stack[:len(stack)-1]
 		if e.MaxExecs > 0 && e.Stats.Executions >= e.MaxExecs {
+			e.Stats.Capped = true
+			return true
+		}
+		if !ExploreDeadline.IsZero() && e.Stats.Executions%32 == 0 && time.Now().After(ExploreDeadline) {
+			// the wall-clock budget of this scenario is used up: what was explored stands, the scenario is reported as capped
+			// (the check's evidence then says exhaustive=false); never a verdict
 			e.Stats.Capped = true
 			return true
 		}
@@ -132,7 +145,7 @@ func (e *Explorer) Explore() bool {
 			np := make([]int, al.i+1)
 			copy(np, choices[:al.i])
 			np[al.i] = al.a
-			stack = append(stack, frame{prefix: np, sig: sigs[:al.i+1 : al.i+1], cost: al.c})
+			stack = append(stack, frame{prefix: np, sig: sigs[: al.i+1 : al.i+1], cost: al.c})
 		}
 	}
 	return true
